@@ -45,6 +45,9 @@ type scen struct {
 	noModel     bool   // the Lean model is not consulted (one scenario outside the theorems' domain whose 8000-node tree costs the
 	// list-based model a quarter of an hour): real code against the reference only
 
+	notify               bool // UnspentDB.CB.NotifyTxAdd / NotifyTxDel are installed (the wallet's hooks)
+	notifyAdd, notifyDel int
+
 	keys   map[string]*chainkit.Key
 	badTx  map[[32]byte]bool // txids whose scripts fail (generator's label)
 	mem    *memory.Allocator
@@ -52,6 +55,9 @@ type scen struct {
 	fillMu sync.Mutex
 	opts   chainkit.Opts
 }
+
+// documented deviations already reported in this run (each is reported once; the scenarios go on after it)
+var reportedKnown = map[string]bool{}
 
 var defaultMalloc = utxo.Memory_Malloc
 var defaultFree = utxo.Memory_Free
@@ -86,6 +92,12 @@ func newScen(name string, alloc bool, sub uint64, size int, opts chainkit.Opts, 
 	}
 	if genesisBits != 0 {
 		binary.LittleEndian.PutUint32(k.Ch.BlockTreeRoot.BlockHeader[72:76], genesisBits)
+	}
+	if (strings.HasPrefix(name, "random-headers") && sub%2 == 1) || name == "partial-spend-and-in-block-chain-undo" || name == "tie-after-failed-reorg-first-child-is-first-seen" || name == "header-first-sync" {
+		// the wallet's hooks installed: UnspentDB.UndoBlockTxs / commit take their "slow" paths (one call per record)
+		s.notify = true
+		k.Ch.Unspent.CB.NotifyTxAdd = func(rec *utxo.UtxoRec) { s.notifyAdd++ }
+		k.Ch.Unspent.CB.NotifyTxDel = func(rec *utxo.UtxoRec, outs []bool) { s.notifyDel++ }
 	}
 	gen := &rBlock{idx: 0, Hash: k.Genesis.Hash, node: k.Ch.BlockTreeRoot, firstSeen: -1, linked: -1, delivered: true, label: "genesis"}
 	gen.Bits = k.Ch.BlockTreeRoot.Bits()
@@ -435,24 +447,37 @@ func (s *scen) observe(kind, outcome, modelReply string, fullDump bool) {
 			s.propFail("tip-invalid", fmt.Sprintf("tip is block #%d (height %d) whose branch is invalid (%s); best valid is #%d", tb.idx, tb.Height, tb.why, want.idx))
 		case tb.work.Cmp(want.work) == 0:
 			// The known deviations are kept as narrow as they are documented: (1) a delivery whose reorganisation
-			// FAILED ends on the documented fall-back choice (first child's subtree at every fork) and that is not the
-			// first-seen leaf; (2) the two sides carry different bits, so the code's float64 sums of equal exact sums
-			// may differ in the last digit. Any other tie resolved against the first-seen block is a violation.
+			// FAILED ends on the documented fall-back choice (first child WITH DATA at every fork, every leaf valued by its
+			// full cumulative work — the repaired fall-back) and that is not the first-seen leaf; (2) the two sides carry
+			// different bits AND the float64 sums the code compares (recomputed here the way MorePOW adds them up) really
+			// differ although the exact sums are equal. Any other tie resolved against the first-seen block is a violation.
 			key, extra := "tie-not-first-seen", ""
 			if s.moveFailed {
 				key = "tie-wrong-choice-after-failed-reorg"
-				d, _ := fallbackChoice(s.blocks, false)
 				d1, _ := fallbackChoice(s.blocks, true)
-				extra = fmt.Sprintf("; the documented fall-back choice after a failed reorganisation is #%d", d.idx)
-				if tb == d || tb == d1 {
+				extra = fmt.Sprintf("; the documented fall-back choice after a failed reorganisation is #%d", d1.idx)
+				if tb == d1 {
 					key, extra = "tie-not-first-seen-after-failed-reorg", ""
-				} else if mixedBits(tb, want) || mixedBits(tb, d) {
+				} else if (mixedBits(tb, want) && floatSumsDiffer(tb, want)) || (mixedBits(tb, d1) && floatSumsDiffer(tb, d1)) {
 					key = "float-work-exact-tie"
 				}
-			} else if mixedBits(tb, want) {
+			} else if mixedBits(tb, want) && floatSumsDiffer(tb, want) {
 				key = "float-work-exact-tie"
 			}
-			s.propFail(key, fmt.Sprintf("tip is block #%d (height %d, first seen at delivery %d) although #%d with the same cumulative work was seen first (delivery %d)%s", tb.idx, tb.Height, tb.firstSeen, want.idx, want.firstSeen, extra))
+			what := fmt.Sprintf("tip is block #%d (height %d, first seen at delivery %d) although #%d with the same cumulative work was seen first (delivery %d)%s", tb.idx, tb.Height, tb.firstSeen, want.idx, want.firstSeen, extra)
+			if key == "tie-not-first-seen-after-failed-reorg" || key == "float-work-exact-tie" {
+				// a documented deviation: reported once per run, then the reference adopts the node's choice between the
+				// two equal-work blocks and the scenario goes on (everything after it is still observed)
+				r.Hit("known-deviation/" + key)
+				if !reportedKnown[key] {
+					reportedKnown[key] = true
+					r.PropFail(key, fmt.Sprintf("[%s alloc=%v subseed=%d step %d] %s%s", s.name, s.alloc, s.sub, s.step, what, s.note), s.doc(what))
+				}
+				tb.firstSeen, want.firstSeen = want.firstSeen, tb.firstSeen
+				s.note = ""
+				break
+			}
+			s.propFail(key, what)
 		default:
 			key, extra := "not-most-work", ""
 			if forkPoint(tb, want).Parent == nil {
@@ -472,7 +497,9 @@ func (s *scen) observe(kind, outcome, modelReply string, fullDump bool) {
 			}
 			s.propFail(key, fmt.Sprintf("tip is block #%d (height %d, work %s) although the valid branch ending in #%d (height %d) has work %s%s", tb.idx, tb.Height, tb.work.FloatString(12), want.idx, want.Height, want.work.FloatString(12), extra))
 		}
-		return
+		if s.dead {
+			return
+		}
 	}
 	view, why := replayFromGenesis(tb)
 	if why != "" {
@@ -532,6 +559,7 @@ func (s *scen) deliver(b *rBlock) string {
 	s.step++
 	prevTip, prevH := s.k.Tip()
 	moveNesting = 0
+	refTooDeep := s.refTooDeep(b)
 	res := s.k.Submit(b.raw)
 	out := realOutcome(res)
 	if nt, nh := s.k.Tip(); out == "ok" && nt == hex.EncodeToString(b.Hash[:]) && hex.EncodeToString(b.Parent.Hash[:]) != prevTip {
@@ -553,7 +581,7 @@ func (s *scen) deliver(b *rBlock) string {
 	s.ops = append(s.ops, fmt.Sprintf("deliver #%d h=%d parent=#%d %s bits=%08x -> %s (tip #%d)", b.idx, b.Height, b.Parent.idx, b.label, b.Bits, out, tipIdx))
 	// what the node now knows (independent of its answer): header and data at once — unless the header is known
 	// already (CheckBlock: "already in"; the data of a known header comes through `commit`, see headers.go)
-	if b.linked < 0 && (b.Parent.Parent == nil || b.Parent.linked >= 0) {
+	if b.linked < 0 && (b.Parent.Parent == nil || b.Parent.linked >= 0) && !refTooDeep {
 		b.linked = s.seq
 		if b.firstSeen < 0 && (b.Parent.Parent == nil || b.Parent.firstSeen >= 0) {
 			b.firstSeen = s.seq
